@@ -19,8 +19,11 @@ import (
 	"fmt"
 	"go/ast"
 	"go/constant"
+	"go/printer"
 	"go/token"
+	"go/types"
 	"path/filepath"
+	"regexp"
 	"sort"
 	"strings"
 
@@ -44,6 +47,7 @@ type respguardIdxTr struct {
 	strVar  string // the index text parameter
 	lenVar  string
 	iterVar string
+	bools   map[string]bool // boolean locals (`keyword := indexStr == "next" || …`)
 }
 
 func (x *respguardIdxTr) fail(n ast.Node, format string, a ...any) string {
@@ -105,6 +109,10 @@ func (x *respguardIdxTr) boolExpr(e ast.Expr) string {
 	switch v := e.(type) {
 	case *ast.ParenExpr:
 		return x.boolExpr(v.X)
+	case *ast.Ident:
+		if x.bools[v.Name] {
+			return "b_" + mangle(v.Name)
+		}
 	case *ast.UnaryExpr:
 		if v.Op == token.NOT {
 			return "(!" + x.boolExpr(v.X) + ")"
@@ -181,17 +189,40 @@ func (x *respguardIdxTr) stmts(list []ast.Stmt, ind string) string {
 		}
 		return ind + ".ok (some " + x.intExpr(v.Results[0]) + ")"
 	case *ast.IfStmt:
-		if v.Init != nil || v.Else != nil {
-			return ind + x.fail(v, "if with init / else")
+		if v.Init != nil {
+			return ind + x.fail(v, "if with init")
 		}
 		c := x.boolExpr(v.Cond)
 		then := v.Body.List
 		if !respguardTerminates(then) {
 			then = append(append([]ast.Stmt{}, then...), rest...)
 		}
-		return ind + "if " + c + " then\n" + x.stmts(then, ind+"  ") + "\n" + ind + "else\n" + x.stmts(rest, ind+"  ")
+		// `else { … }` / `else if …`: the else branch continues with the statements after the if as well
+		els := rest
+		switch e := v.Else.(type) {
+		case nil:
+		case *ast.BlockStmt:
+			els = e.List
+			if !respguardTerminates(els) {
+				els = append(append([]ast.Stmt{}, els...), rest...)
+			}
+		case *ast.IfStmt:
+			els = append([]ast.Stmt{e}, rest...)
+		}
+		return ind + "if " + c + " then\n" + x.stmts(then, ind+"  ") + "\n" + ind + "else\n" + x.stmts(els, ind+"  ")
 	case *ast.AssignStmt:
 		if len(v.Lhs) == 1 && len(v.Rhs) == 1 {
+			// a boolean local: `name := <condition>`
+			if id, ok := v.Lhs[0].(*ast.Ident); ok && v.Tok == token.DEFINE && id.Name != x.idxVar {
+				if tv, ok := x.p.TypesInfo.Types[v.Rhs[0]]; ok && isBool(tv.Type) {
+					c := x.boolExpr(v.Rhs[0])
+					if x.bools == nil {
+						x.bools = map[string]bool{}
+					}
+					x.bools[id.Name] = true
+					return ind + "let b_" + mangle(id.Name) + " : Bool := " + c + "\n" + x.stmts(rest, ind)
+				}
+			}
 			if id, ok := v.Lhs[0].(*ast.Ident); ok && id.Name == x.idxVar {
 				switch v.Tok {
 				case token.REM_ASSIGN:
@@ -201,6 +232,10 @@ func (x *respguardIdxTr) stmts(list []ast.Stmt, ind string) string {
 				case token.SUB_ASSIGN:
 					return ind + "let index : Int := index - " + x.intExpr(v.Rhs[0]) + "\n" + x.stmts(rest, ind)
 				case token.ASSIGN:
+					// `index = a % b`
+					if be, ok := v.Rhs[0].(*ast.BinaryExpr); ok && be.Op == token.REM {
+						return ind + "(goRem " + x.intExpr(be.X) + " " + x.intExpr(be.Y) + ").bind fun index =>\n" + x.stmts(rest, ind)
+					}
 					return ind + "let index : Int := " + x.intExpr(v.Rhs[0]) + "\n" + x.stmts(rest, ind)
 				}
 			}
@@ -243,6 +278,175 @@ func respguardCalcIndex(t *tr, p *packages.Package) string {
 	return b.String()
 }
 
+// respguardExtractFromSlice: the statements of extractFromSlice with the list of accepted slice types and the cases of the
+// type switch taken out and SORTED (their order does not matter), everything else in the canonical spelling.
+func respguardExtractFromSlice(t *tr, p *packages.Package) string {
+	fd := findFunc(p, "extractFromSlice")
+	if fd == nil {
+		t.errs = append(t.errs, "lib/mp extractFromSlice not found")
+		return ""
+	}
+	var tyList, cases []string
+	var typesLit *ast.CompositeLit
+	var sw *ast.TypeSwitchStmt
+	for _, st := range fd.Body.List {
+		switch v := st.(type) {
+		case *ast.AssignStmt:
+			if len(v.Rhs) == 1 {
+				if cl, ok := v.Rhs[0].(*ast.CompositeLit); ok && strings.HasPrefix(oneLine(nodeString(p, cl.Type)), "[]reflect.Type") && typesLit == nil {
+					typesLit = cl
+				}
+			}
+		case *ast.TypeSwitchStmt:
+			if sw == nil {
+				sw = v
+			}
+		}
+	}
+	if typesLit == nil || sw == nil {
+		gsFail(t, p, fd, "extractFromSlice: expected a `[]reflect.Type{…}` literal and a type switch")
+		return ""
+	}
+	for _, e := range typesLit.Elts {
+		tyList = append(tyList, oneLine(nodeString(p, e)))
+	}
+	sort.Strings(tyList)
+	// canonical names: variables of the function are v<i> by first occurrence OUTSIDE the clauses' own declarations, the
+	// switch variable is `vsw` in every clause, variables declared inside a clause are w<i> per clause — so the clauses
+	// can be reordered, and `vsw[v5]` still says WHICH variable indexes the slice.
+	swVar := map[types.Object]bool{}
+	for _, c := range sw.Body.List {
+		if o := p.TypesInfo.Implicits[c]; o != nil {
+			swVar[o] = true
+		}
+	}
+	clauseOf := func(pos token.Pos) int {
+		for i, c := range sw.Body.List {
+			if pos >= c.Pos() && pos < c.End() {
+				return i
+			}
+		}
+		return -1
+	}
+	global := map[types.Object]string{}
+	local := map[int]map[types.Object]string{}
+	type edit struct {
+		id  *ast.Ident
+		old string
+	}
+	var edits []edit
+	ast.Inspect(fd.Body, func(n ast.Node) bool {
+		id, ok := n.(*ast.Ident)
+		if !ok {
+			return true
+		}
+		obj := p.TypesInfo.ObjectOf(id)
+		v, isVar := obj.(*types.Var)
+		if !isVar || v.IsField() || v.Parent() == nil || v.Parent() == v.Pkg().Scope() || v.Parent() == types.Universe {
+			return true
+		}
+		var nm string
+		switch ci := clauseOf(obj.Pos()); {
+		case swVar[obj]:
+			nm = "vsw"
+		case ci >= 0:
+			if local[ci] == nil {
+				local[ci] = map[types.Object]string{}
+			}
+			if local[ci][obj] == "" {
+				local[ci][obj] = fmt.Sprintf("w%d", len(local[ci]))
+			}
+			nm = local[ci][obj]
+		default:
+			if global[obj] == "" {
+				global[obj] = fmt.Sprintf("v%d", len(global))
+			}
+			nm = global[obj]
+		}
+		edits = append(edits, edit{id, id.Name})
+		id.Name = nm
+		return true
+	})
+	// the symbolic variable of the switch statement itself (`switch v := x.(type)`)
+	if as, ok := sw.Assign.(*ast.AssignStmt); ok && len(as.Lhs) == 1 {
+		if id, ok := as.Lhs[0].(*ast.Ident); ok {
+			edits = append(edits, edit{id, id.Name})
+			id.Name = "vsw"
+		}
+	}
+	printStmts := func(list []ast.Stmt) []string {
+		var out []string
+		for _, st := range list {
+			var sb strings.Builder
+			_ = printer.Fprint(&sb, token.NewFileSet(), st)
+			out = append(out, respguardDropErrText(oneLine(sb.String())))
+		}
+		return out
+	}
+	for _, c := range sw.Body.List {
+		cc := c.(*ast.CaseClause)
+		var tys []string
+		for _, e := range cc.List {
+			tys = append(tys, oneLine(nodeString(p, e)))
+		}
+		sort.Strings(tys)
+		label := "default"
+		if cc.List != nil {
+			label = "case " + strings.Join(tys, ", ")
+		}
+		cases = append(cases, label+": "+strings.Join(printStmts(cc.Body), " "))
+	}
+	sort.Strings(cases)
+	// the skeleton: the literal's elements and the switch's clauses removed
+	savedElts, savedClauses := typesLit.Elts, sw.Body.List
+	typesLit.Elts, sw.Body.List = nil, nil
+	skel := printStmts(fd.Body.List)
+	typesLit.Elts, sw.Body.List = savedElts, savedClauses
+	for _, e := range edits {
+		e.id.Name = e.old
+	}
+	var b strings.Builder
+	b.WriteString("/-- the slice types `mp.extractFromSlice` accepts (sorted) -/\ndef mpSliceTypes : List String := " + leanStrList(tyList) + "\n\n")
+	b.WriteString("/-- the clauses of its type switch (sorted; bodies in the canonical spelling, each numbered on its own) -/\ndef mpSliceCases : List String := " + leanStrList(cases) + "\n\n")
+	b.WriteString("/-- its statements with the type list and the switch clauses taken out, canonical spelling (model `extractFromSlice`) -/\ndef mpExtractFromSlice : List String := " + leanStrList(skel) + "\n\n")
+	return b.String()
+}
+
+var respguardErrTextRe = regexp.MustCompile(`(fmt\.Errorf|errors\.New|errors\.Errorf)\("(?:[^"\\]|\\.)*"`)
+
+// respguardDropErrText replaces the message of fmt.Errorf / errors.New in printed source by "…".
+func respguardDropErrText(s string) string {
+	return respguardErrTextRe.ReplaceAllString(s, `$1("…"`)
+}
+
+// respguardAnonLocals renames every local variable of the file to `_` (in place) and returns the function that restores
+// the names.
+func respguardAnonLocals(p *packages.Package, f *ast.File) func() {
+	type edit struct {
+		id  *ast.Ident
+		old string
+	}
+	var edits []edit
+	ast.Inspect(f, func(n ast.Node) bool {
+		id, ok := n.(*ast.Ident)
+		if !ok {
+			return true
+		}
+		v, isVar := p.TypesInfo.ObjectOf(id).(*types.Var)
+		if !isVar || v.IsField() || v.Parent() == nil || v.Parent() == v.Pkg().Scope() || v.Parent() == types.Universe {
+			return true
+		}
+		edits = append(edits, edit{id, id.Name})
+		id.Name = "_"
+		return true
+	})
+	return func() {
+		for _, e := range edits {
+			e.id.Name = e.old
+		}
+	}
+}
+
 func respguardCanonOf(t *tr, b *strings.Builder, p *packages.Package, fd *ast.FuncDecl, def, doc string) {
 	if fd == nil {
 		t.errs = append(t.errs, def+": function not found")
@@ -258,7 +462,7 @@ func respguardVarsExtra(t *tr) string {
 	mp := all[respguardPkgMP]
 	b.WriteString("/-! ## round 3: response-derived variables read inside Shoot -/\n\nopen Pandora.Model.C19 in\n")
 	b.WriteString(respguardCalcIndex(t, mp))
-	respguardCanonOf(t, &b, mp, findFunc(mp, "extractFromSlice"), "mpExtractFromSlice", "`mp.extractFromSlice` (model `extractFromSlice`)")
+	b.WriteString(respguardExtractFromSlice(t, mp))
 	respguardCanonOf(t, &b, mp, findFunc(mp, "GetMapValue"), "mpGetMapValue", "`mp.GetMapValue` (model `getMapValue`)")
 	respguardCanonOf(t, &b, mp, rgFindMethod(mp, "NextIterator", "Rand"), "mpIterRand", "`(*NextIterator).Rand` (model `intn`)")
 	respguardCanonOf(t, &b, mp, rgFindMethod(mp, "NextIterator", "Next"), "mpIterNext", "`(*NextIterator).Next` (a counter per segment: never negative)")
@@ -282,6 +486,58 @@ func respguardVarsExtra(t *tr) string {
 	}
 	b.WriteString("/-- `maxRandStringLength` of templater/func.go (0: the source has no such constant) -/\ndef maxRandStringLength : Int := " + maxLen + "\n\n")
 
+	// when the scenario gun buffers the response body (`respBody` is what every postprocessor reads and the loop rewinds:
+	// it must not be nil when there is a postprocessor): the condition of the `if` whose block calls io.ReadAll(resp.Body),
+	// as a boolean function of its atoms
+	scn := rgLoadAll(rgGunScn)[rgGunScn]
+	if ss := rgFindMethod(scn, "ScenarioGun", "shootStep"); ss == nil {
+		t.errs = append(t.errs, "ScenarioGun.shootStep not found")
+	} else {
+		var cond ast.Expr
+		for _, st := range ss.Body.List {
+			ifs, ok := st.(*ast.IfStmt)
+			if !ok || cond != nil {
+				continue
+			}
+			ast.Inspect(ifs.Body, func(n ast.Node) bool {
+				if ce, ok := n.(*ast.CallExpr); ok && oneLine(nodeString(scn, ce)) == "io.ReadAll(resp.Body)" {
+					cond = ifs.Cond
+				}
+				return true
+			})
+		}
+		if cond == nil {
+			gsFail(t, scn, ss, "shootStep: no top-level `if … { … io.ReadAll(resp.Body) … }`")
+		} else {
+			var unknown []string
+			lean := respguardBoolCond(scn, cond, map[string]string{
+				`g.base.Config.AnswLog.Enabled`: "answlog",
+				`g.base.DebugLog`:               "debug",
+				`len(processors) > 0`:           "hasPostprocessors",
+				`len(processors) != 0`:          "hasPostprocessors",
+				`len(step.Postprocessors) > 0`:  "hasPostprocessors",
+			}, &unknown)
+			sort.Strings(unknown)
+			b.WriteString("/-- regenerated from the condition of the `if` of `ScenarioGun.shootStep` whose block buffers the response body\n(`" + oneLine(nodeString(scn, cond)) + "`): `respBody` is non-nil exactly then -/\ndef scenarioBodyBuffered (answlog debug hasPostprocessors : Bool) : Bool :=\n  " + lean + "\n\n")
+			b.WriteString("/-- atoms of that condition the translator does not know (each is read as `false`) -/\ndef scenarioBodyBufferedUnknownAtoms : List String := " + leanStrList(unknown) + "\n\n")
+		}
+	}
+
+	respguardCanonOf(t, &b, scn, rgFindMethod(scn, "ScenarioGun", "prepareRequest"), "scenarioPrepareRequest", "`ScenarioGun.prepareRequest` (the error of `http.NewRequest` — a URL rendered from response-derived variables may not parse — is returned BEFORE the request is used)")
+	if ss := rgFindMethod(scn, "ScenarioGun", "shootStep"); ss != nil {
+		var pre []ast.Stmt
+		for _, st := range ss.Body.List {
+			if ifs, ok := st.(*ast.IfStmt); ok && strings.Contains(oneLine(nodeString(scn, ifs.Cond)), "Preprocessor") {
+				pre = append(pre, ifs)
+			}
+		}
+		if len(pre) != 1 {
+			gsFail(t, scn, ss, "shootStep: expected one `if step.Preprocessor != nil { … }`")
+		} else {
+			b.WriteString("/-- the preprocessor block of `ScenarioGun.shootStep` (model `scenarioStepsV`: an error of `Process` is the step's error,\nits variables are stored under `preprocessor`), canonical spelling -/\ndef scenarioPreBlock : List String := " + leanStrList(respguardCanonStmts(scn, pre)) + "\n\n")
+		}
+	}
+
 	// inventory of run-time panic sites
 	var panics, asserts, idx, mapw []string
 	for _, sc := range []struct {
@@ -304,7 +560,15 @@ func respguardVarsExtra(t *tr) string {
 				}
 			}
 			rel, _ := filepath.Rel(repo, fn)
-			rgScanFile(sc.pkg, f, rel, &panics, &asserts, &idx, &mapw)
+			// local variables (parameters included) are printed as `_`: renaming one is harmless, a NEW index expression,
+			// assertion or panic is not (WHICH variable indexes what is pinned by the canonical statements above)
+			restore := respguardAnonLocals(sc.pkg, f)
+			rgScanFileWith(sc.pkg, f, rel, func(n ast.Node) string {
+				var sb strings.Builder
+				_ = printer.Fprint(&sb, token.NewFileSet(), n)
+				return sb.String()
+			}, &panics, &asserts, &idx, &mapw)
+			restore()
 		}
 	}
 	for _, l := range []*[]string{&panics, &asserts, &idx, &mapw} {
